@@ -51,6 +51,7 @@ func RunC05(c *Ctx) {
 	}
 	idx = e.explicitRanges(idx, true)
 	// I/O errors: a failed operation must not publish a list naming missing tables
+	idx = e.staleCleanupFamilies(idx)
 	idx = e.faultFamilies(idx, true, "", 2)
 	for i := 0; i < c.N(500, 20000); i++ {
 		if c.Mine(idx) {
@@ -320,6 +321,29 @@ func (e *engRunner) faultPauseFamilies(idx int) int {
 	return idx
 }
 
+// staleCleanupFamilies: a handle that is stale in various ways (tables below / in the middle
+// of what it holds were compacted away, tables were added on top, everything was merged)
+// runs Close, Clean or a reopen: none of them may remove a table the current list names.
+func (e *engRunner) staleCleanupFamilies(idx int) int {
+	if !haveCompactRange {
+		return idx
+	}
+	c := e.c
+	pros := []string{"cr01", "cr12", "cr01,add", "add,cr01", "cr23", "add", "compactall", "cr01,cr01"}
+	as := []string{"close", "clean", "clean,close", "reopen", "read,close"}
+	for pi, pro := range pros {
+		for ai, a := range as {
+			for ri, rec := range []eng.Recipe{{0, 0, 0}, {60, 0, 0}, {0, 0, 0, 0, 0}, {200, 40, 0, 0}} {
+				if c.Mine(idx) {
+					e.sweepStale("stale-handle-cleanup-sweep", idx, engCfg(pi+ai+ri), rec, pro, a, []string{"", "add"}[(pi+ai+ri)%2])
+				}
+				idx++
+			}
+		}
+	}
+	return idx
+}
+
 // faultFamilies: every filesystem operation of every call kind fails once (quick tier:
 // one in `sample` of the (call, initial stack, continuation) combinations).
 func (e *engRunner) faultFamilies(idx int, every bool, suffix string, sample int) int {
@@ -327,11 +351,17 @@ func (e *engRunner) faultFamilies(idx int, every bool, suffix string, sample int
 	fops := []string{"add", "addbig", "addmulti", "compactall", "autocompact", "compactexpiry", "clean", "addempty", "add,add,add", "reopen", "cr01", "cr12", "addbad", "addmultiabandon", "close"}
 	fconts := []string{"add,compactall", "clean,add"}
 	for oi, op := range fops {
-		for ri, rec := range []eng.Recipe{{}, {0, 0}, {200, 40, 0, 0}, {-1, -2, 0}, {0, 0, 0, 0, 0, 0, 0}} {
+		for ri, rec := range []eng.Recipe{{}, {0, 0}, {200, 40, 0, 0}, {-1, -2, 0}, {0, 0, 0, 0, 0, 0, 0}, {-3, 0}} {
 			for ci, cont := range fconts {
 				use := c.Thorough() || (oi+ri+ci)%sample == 0
+				gcfg := engCfg(oi + ri)
+				if len(rec) > 0 && rec[0] == -3 {
+					// a log section of a dozen blocks: reads of later log blocks can fail
+					gcfg.BlockSize = 512
+					use = use || strings.HasPrefix(op, "compact") || op == "cr01"
+				}
 				if use && c.Mine(idx) {
-					e.faultSweep("io-fault-sweep", idx, engCfg(oi+ri), rec, op+suffix, cont, every)
+					e.faultSweep("io-fault-sweep", idx, gcfg, rec, op+suffix, cont, every)
 				}
 				idx++
 			}
@@ -347,7 +377,7 @@ func RunC06(c *Ctx) {
 	e := newEngRunner(c)
 	defer e.cleanup()
 	ops := []string{"add", "add,add", "addmulti", "compactall", "compactexpiry", "addbig", "autocompact", "clean", "close", "add,compactall", "addempty", "addbad"}
-	conts := []string{"fresh,add,fresh", "add,compactall,fresh", "clean,add", "fresh,compactall,close", "add,add,add"}
+	conts := []string{"fresh,add,fresh", "add,compactall,fresh", "clean,add", "fresh,compactall,close", "add,add,add", "adddel,addother,addother,addother,fresh"}
 	recs := []eng.Recipe{{}, {0}, {0, 0}, {60, 0, 0}, {200, 40, 0, 0}, {0, 0, 0, 0, 0, 0, 0}}
 	idx := 0
 	total := 0
@@ -566,6 +596,7 @@ func RunC16(c *Ctx) {
 			idx++
 		}
 	}
+	idx = e.staleCleanupFamilies(idx)
 	idx = e.faultFamilies(idx, false, ",clean", 2)
 	for i := 0; i < c.N(800, 40000); i++ {
 		if c.Mine(idx) {
